@@ -14,6 +14,11 @@ def scenarios(prop, tier):
     out += _gmx(prop, tier)
     out += _squeeth(prop, tier)
     out += _uni(prop, tier)
+    if prop == "C01":
+        from . import nv_bars
+
+        for n in (3,) if tier == "quick" else (4, 6):
+            out.append(Scenario(f"bar_history/uni+aave+deribit/n{n}", nv_bars.bar_history, params=dict(bars=n), shadows=nv_bars.SHADOWS, entry=("Actuator.run", "Broker.get_account_status", "UniLpMarket.get_market_balance", "AaveV3Market.get_market_balance", "DeribitOptionMarket.get_market_balance"), nlsat=False, relax_int=True, round_mode="uf", max_paths=600, time_budget_s=300, witness_cap=8, canary="CANARY the markets never hold anything"))
     return out
 
 
